@@ -1,37 +1,71 @@
 """C29 — chain-history search reports exactly the state changes.
 
-Exploration over histories x configurations.  A history over the block range [last, head] is given by
-its set of change points; the value at each change is fresh (the property's premise: the value never
-returns to an earlier one).  For every range length L, EVERY subset of <= K change points in
-(last, head], every sampling step 1..L+1, two range starts and (on small ranges) seven kinds of value
-are run through the real
+Exploration over histories x configurations, in three lanes.
+
+PURE.  A history over the block range [last, head] is given by its set of change points; the value at each
+change is fresh (the property's premise: the value never returns to an earlier one).  For every range length L,
+EVERY subset of <= K change points in (last, head], every sampling step 1..L+1, two range starts and (on small
+ranges) nine kinds of value are run through the real
 
     list(find_state_changes(head, last, get, equals, step))      and
     find_state_change(head, last, get, equals, pred_value=value at last)
 
-with `get` a fake that serves the history and refuses levels outside [last, head].
+with `get` a fake that serves the history and refuses levels outside [last, head].  Spot lengths of a few hundred
+levels (every single change point, steps around 60, around the powers of two, around L/2 and L) make the sampling
+windows and the bisected intervals several hundred levels wide.
+
+SEQ (process history).  Several searches in ONE process over the SAME range [last, head] for DIFFERENT histories
+(A, B, A again), every ordered pair of histories on small ranges and neighbouring / mirrored change points on long
+ones; every call of the sequence is judged on its own.  (The PURE lane also runs all histories of one range in one
+shard, one after the other.)
+
+QUERY.  The same searches issued through the public query layer against an in-memory node behind the real
+`ShellQuery`: `blocks[a:b].find_upvotes(P)`, `.find_ballots()` (multi-change search, default step 60, range
+[a, b-1]) and `.find_origination(KT)` (single-change search over (0, head level]) on one slice object, one after
+the other, for two proposals and two contracts with different histories.  The node serves realistic headers and
+metadata (1-based `level`, 0-based `level_position` / `cycle_position`), answers unknown blocks with RpcError as a
+node does, and puts a marker operation into every block so that the block a search settles on can be read from the
+result.
+
 Oracle (mc/ref/chainsearch.py, the statement): the report is [(level, value at level)] for exactly the
 levels in (last, head] whose value differs from the previous level's, in increasing order; the
 single-change search returns the first level after `last` whose value differs from the value at `last`
-(no verdict when the range has no change: the statement presupposes one).
+(no verdict when the range has no change: the statement presupposes one).  Through the query layer only the
+levels can be observed; the last block of a slice (which the helpers leave out on purpose) is not judged.
 """
 from __future__ import annotations
 
+import bisect as _bisect
+import contextlib
 import itertools
+import re
+import sys
 
 from mc.engine.report import Result
 from mc.ref import chainsearch as ref
 
 ID = 'C29'
 LEVEL = 'exploration'
-RULE = ('every range length L x every subset of <=K change points x every step 1..L+1 x range start in {0,5} x value kind; '
-        'non-trivial = distinct histories (L, start, change points) with at least one change point; each is run under '
+RULE = ('PURE: every range length L x every subset of <=K change points x every step 1..L+1 x range start in {0,5} x value kind; '
+        'SEQ: ordered pairs (A,B) of histories searched A,B,A on one range in one process, each call judged; '
+        'QUERY: chain height H x block slice x histories of two proposals, the ballots and two contracts, searched one after '
+        'the other on one slice object through ShellQuery. '
+        'non-trivial = distinct histories with at least one change point: (L, start, change points) in PURE, '
+        '(L, start, step, A, B) with A != B in SEQ, (H, slice, helper, change points) in QUERY; each PURE history is run under '
         'every step (pairs counted in extra.history_x_step_pairs_with_a_change); the value kind is not part of the key')
 BOUND = {
-    'quick': 'L in 0..14 with <=3 change points, all steps 1..L+1, start in {0,5}; 7 value kinds for L<=8 (ints above); '
-             'spot length 120 with every single change point, steps {1,7,59,60,61,119,120,121}',
-    'thorough': 'L in 0..24 with <=4 change points and L<=40 with <=3, all steps 1..L+1, start in {0,5}; 7 value kinds for L<=10; '
-                'spot lengths {100,120,180,300} with every set of <=2 change points, steps {1,7,59,60,61,L-1,L,L+1}',
+    'quick': 'PURE L in 0..14 with <=3 change points, all steps 1..L+1, start in {0,5}; 9 value kinds for L<=8 (int, falsy above); '
+             'spot lengths {120,300,520} with every single change point and 150 with every pair, steps '
+             '{1,7,59,60,61,127,128,129,255,256,257,L/2,L/2+1,L-1,L,L+1}; also the single-change search on each. '
+             'SEQ L in 1..6, all ordered pairs of histories with <=2 change points, steps {1,2,3,L,L+1}, 3 kind pairs; L in {120,300} '
+             'neighbouring and mirrored single change points, steps {1,60,L+1}. '
+             'QUERY H in 1..8 with all <=2 change points x 7 slices; H in {61,130,300} every single change point x 3 slices and '
+             'pairs at distance {1,60} on the whole chain; 6 searches per case',
+    'thorough': 'PURE L in 0..24 with <=4 change points and L<=40 with <=3, all steps 1..L+1, start in {0,5}; 9 value kinds for L<=10; '
+                'spot lengths {100,120,180,300,520} with every set of <=2 change points and 1000 with every single one, steps as in quick. '
+                'SEQ L in 1..9 with <=3 (L<=7) or <=2 change points; L in {120,300,520} neighbouring and mirrored. '
+                'QUERY H in 1..11 with all <=3 (H<=8) or <=2 change points x 7 slices; H in {61,100,130,300,520} every single change '
+                'point x 7 slices and pairs at distance {1,2,59,60,61} x 3 slices',
 }
 ASSUMPTIONS = [
     'find_state_changes yields (level, value) pairs (read from walk_state_change_interval); the value must be the '
@@ -40,19 +74,29 @@ ASSUMPTIONS = [
     'the level `last` itself is the baseline and is never reported',
     'the history is defined on [last, head] only: a probe outside the range is reported as a violation',
     'find_state_change is judged only when the range contains a change (statement: "the first level ... whose value differs")',
+    'every search is a fresh question: what an earlier search over the same range saw for another value has no bearing on it',
+    'query layer: blocks[a:b] denotes levels a..b (negative a = offset from the head, empty b = head) as the BlocksQuery '
+    'docstring says; find_upvotes / find_ballots search [a, b-1] (they leave the last block out on purpose), so a report of '
+    'block b itself is not judged; find_origination searches (0, head level] with "no such contract" as the start value',
+    'query layer: the block a search settled on is read from a marker operation the in-memory node puts into every block',
+    'a search over n levels that nests more than about 4n+1000 calls deep does not terminate (reported as RecursionError)',
 ]
 LEVEL_TEXT = ('exhaustive over all positions of up to 4 change points relative to every sampling grid for ranges up to 40 '
               'levels (every residue of change point vs. grid, every grid vs. range length relation incl. step > range), '
-              'plus realistic lengths around the default step 60; longer ranges only repeat the same grid relations')
+              'plus ranges of 100-1000 levels with windows and bisected intervals up to the whole range wide; repeated searches '
+              'over one range for different histories in one process; the same searches through the public block-slice helpers '
+              'against an in-memory node; longer ranges only repeat the same grid relations')
 
 KINDS = ['int', 'str', 'dict', 'none-first', 'tuple2', 'tuple3', 'noisy', 'falsy', 'countdown']
 FALSY = ['a', '', 0, [], None, {}, 0.5]   # a history whose LATER values are falsy Python objects (all pairwise different)
+SEQ_SUFFIX = ' (search repeated on one range for another history)'
 
 
 class OutOfRange(Exception):
     pass
 
 
+# ================================================================== PURE lane
 def make_value(kind, k, level):
     """k-th fresh value of the history (k = number of change points at or below the level)."""
     if kind == 'int':
@@ -95,7 +139,30 @@ def build(case):
     return head, last, hist, make_equals(kind)
 
 
+def _plain(x):
+    return list(x) if isinstance(x, (tuple, list)) else [x]
+
+
+@contextlib.contextmanager
+def bounded_recursion(n):
+    """Run the searches with room for about 4n+1000 nested calls (a bisection over n levels nests ~log2 n deep, a linear walk
+    n deep): a search that never terminates (e.g. the single-change search on an empty range) then fails fast with
+    RecursionError instead of unwinding the 100000 frames that a dependency of pytezos (py_ecc) allows process-wide.
+    The previous limit is restored afterwards."""
+    old = sys.getrecursionlimit()
+    sys.setrecursionlimit(min(old, 4 * n + 1000) if old >= 1000 else old)
+    try:
+        yield
+    finally:
+        sys.setrecursionlimit(old)
+
+
 def drive(case):
+    with bounded_recursion(case['L']):
+        return _drive(case)
+
+
+def _drive(case):
     """Real code.  -> dict(multi=('ok', [[level, value]..]) | ('raised', type, text) | ('oob', level), single=..., probes=..)"""
     from pytezos.rpc.search import find_state_change, find_state_changes
     head, last, hist, equals = build(case)
@@ -110,16 +177,18 @@ def drive(case):
     obs = {}
     try:
         items = list(find_state_changes(head, last, get, equals, case['step']))
-        obs['multi'] = ('ok', [list(it) if isinstance(it, (tuple, list)) else [it] for it in items])
+        obs['multi'] = ('ok', [_plain(it) for it in items])
     except OutOfRange as e:
         obs['multi'] = ('oob', e.args[0])
+    except RecursionError:
+        obs['multi'] = ('raised', 'RecursionError', '')
     except Exception as e:
         obs['multi'] = ('raised', type(e).__name__, str(e)[:200])
     obs['multi_probes'] = len(probes)
     del probes[:]
     try:
         res = find_state_change(head, last, get, equals, pred_value=hist[last])
-        obs['single'] = ('ok', list(res) if isinstance(res, (tuple, list)) else [res])
+        obs['single'] = ('ok', _plain(res))
     except OutOfRange as e:
         obs['single'] = ('oob', e.args[0])
     except RecursionError:
@@ -130,11 +199,39 @@ def drive(case):
     return obs
 
 
-def check(case):
+def judge_levels(who, ctx, levels, explv, low=None):
+    """Compare a reported level list with the expected one.  -> (problems, [(descriptor, detail)])"""
+    problems, vs = [], []
+    if any(not isinstance(lv, int) or isinstance(lv, bool) for lv in levels):
+        return ['shape'], [(f'{who}reports something that is not a block level', f'{ctx}: reported {levels}')]
+    missing = [lv for lv in explv if lv not in levels]
+    extra = [lv for lv in levels if lv not in explv]
+    if missing:
+        if low is not None and all(lv <= low for lv in missing):
+            problems.append('missed below lowest sample')
+            vs.append((f'{who}change between the start of the range and the lowest sampled level is not reported',
+                       f'{ctx}: lowest sampled level {low}, missing {missing}, reported {levels}'))
+        else:
+            problems.append('missed')
+            vs.append((f'{who}change above the lowest sampled level is not reported' if low is not None else
+                       f'{who}a level where the value changes is not reported',
+                       f'{ctx}: missing {missing}, reported {levels}'))
+    if extra:
+        problems.append('extra')
+        vs.append((f'{who}reports a level where the value does not change', f'{ctx}: extra {extra}, reported {levels}'))
+    if len(set(levels)) != len(levels):
+        problems.append('duplicate')
+        vs.append((f'{who}reports the same level more than once', f'{ctx}: reported {levels}'))
+    elif any(a >= b for a, b in zip(levels, levels[1:])):
+        problems.append('order')
+        vs.append((f'{who}changes are not reported in increasing level order', f'{ctx}: reported levels {levels}'))
+    return problems, vs
+
+
+def judge(case, obs):
     """-> (label_multi, label_single, no_verdict_count, [(descriptor, detail)])"""
     head, last, hist, equals = build(case)
     assert ref.never_returns(hist, last, head, equals)
-    obs = drive(case)
     exp = ref.changes(hist, last, head, equals)
     vs = []
     ctx = f'L={case["L"]} last={last} head={head} changes at {[last + c for c in sorted(case["changes"])]} step={case["step"]} kind={case.get("kind", "int")}'
@@ -153,32 +250,13 @@ def check(case):
             vs.append(('find_state_changes yields something that is not a (level, value) pair', f'{ctx}: {items}'))
         else:
             levels = [it[0] for it in items]
-            explv = [lv for lv, _ in exp]
-            missing = [lv for lv in explv if lv not in levels]
-            extra = [lv for lv in levels if lv not in explv]
-            if missing:
-                low = min(ref.sampled_levels(head, last, case['step']))
-                if all(lv <= low for lv in missing):
-                    problems.append('missed below lowest sample')
-                    vs.append(('change between the start of the range and the lowest sampled level is not reported',
-                               f'{ctx}: lowest sampled level {low}, missing {missing}, reported {items}'))
-                else:
-                    problems.append('missed')
-                    vs.append(('change above the lowest sampled level is not reported',
-                               f'{ctx}: missing {missing}, reported {items}'))
-            if extra:
-                problems.append('extra')
-                vs.append(('reports a level where the value does not change', f'{ctx}: extra {extra}, reported {items}'))
-            if len(set(levels)) != len(levels):
-                problems.append('duplicate')
-                vs.append(('reports the same level more than once', f'{ctx}: reported {items}'))
-            wrongv = [it for it in items if it[0] in hist and it[1] != hist[it[0]]]
+            low = min(ref.sampled_levels(head, last, case['step']), default=head)
+            problems, pv = judge_levels('', f'{ctx}; items {items}', levels, [lv for lv, _ in exp], low)
+            vs.extend(pv)
+            wrongv = [it for it in items if isinstance(it[0], int) and it[0] in hist and it[1] != hist[it[0]]]
             if wrongv:
                 problems.append('wrong value')
                 vs.append(('reports a change level with a value that is not the value at that level', f'{ctx}: {wrongv}'))
-            if any(a >= b for a, b in zip(levels, levels[1:])) and len(set(levels)) == len(levels):
-                problems.append('order')
-                vs.append(('changes are not reported in increasing level order', f'{ctx}: reported levels {levels}'))
         lm = 'exact' if not problems else 'WRONG: ' + '+'.join(problems)
     nv = 0
     s = obs['single']
@@ -207,43 +285,266 @@ def check(case):
     return lm, ls, nv, vs
 
 
-# ------------------------------------------------------------------ enumeration
-def grid(tier):
-    """-> list of shard specs (L, last, maxchanges, kinds, steps-or-None, part, nparts)"""
+def check(case):
+    return judge(case, drive(case))
+
+
+# ================================================================== SEQ lane
+def seq_subcases(case):
+    return [{'L': case['L'], 'last': case['last'], 'step': case['step'], 'changes': c['changes'], 'kind': c.get('kind', 'int')}
+            for c in case['calls']]
+
+
+def check_seq(case):
+    """Searches over one range, one after the other in this process; each judged on its own.
+    -> [(label_multi, label_single, nv, vs)] per call"""
     out = []
-    if tier == 'quick':
-        for L in range(0, 15):
-            for last in (0, 5):
-                out.append((L, last, 3, KINDS if L <= 8 else ['int', 'falsy'], None, 0, 1))
-        for part in range(8):
-            out.append((120, 5, 1, ['int'], 'spot', part, 8))
-    else:
-        for L in range(0, 41):
-            for last in (0, 5):
-                n = 8 if L > 30 else (4 if L > 16 else 1)
-                for part in range(n):
-                    out.append((L, last, 4 if L <= 24 else 3, KINDS if L <= 10 else ['int', 'falsy'], None, part, n))
-        for L in (100, 120, 180, 300):
-            for part in range(16):
-                out.append((L, 5, 2, ['int'], 'spot', part, 16))
+    for i, sub in enumerate(seq_subcases(case)):
+        lm, ls, nv, vs = check(sub)
+        if i:
+            vs = [(d + SEQ_SUFFIX, f'call {i + 1} of {len(case["calls"])} in {case["calls"]}: {detail}') for d, detail in vs]
+        out.append((lm, ls, nv, vs))
+    return out
+
+
+# ================================================================== QUERY lane
+KT1 = 'KT1Hkg5qeNhfwpKW4fXvq7HGZB9z2EnmCCA9'
+KT2 = 'KT1PWx2mnDueood7fEmfbBDKx1D9BAnnXitn'
+P1 = 'PsRiotumaAMotcRoDWW1bysEhQy2n1M5fy8JgRp8jjRfHGmfeA7'
+P2 = 'PtNairobiyssHuh87hEhfVBGCVrK3WnS8Z2FT4ymB5tAa4r1nQf'
+TRACK_ID = {'p1': P1, 'p2': P2, 'kt1': KT1, 'kt2': KT2}
+QUERY_CALLS = ['p1', 'p2', 'p1', 'ballots', 'kt1', 'kt2']    # order of the searches on one slice object
+_PATH = re.compile(r'/?chains/main/blocks/([^/]+)/(.*)')
+
+
+class NodeGap(Exception):
+    """The client asked the in-memory node for something it does not serve."""
+
+
+def _node_class():
+    from pytezos.rpc.node import RpcError, RpcNode
+
+    class ChainNode(RpcNode):
+        """Blocks 0..H.  tracks: name -> sorted change levels.  Proposal `p`: roll count = number of change levels at or
+        below the block; ballots: yay count likewise; contract `kt`: absent below its first change level (origination),
+        afterwards its counter = number of later change levels passed."""
+
+        def __init__(self, H, tracks):
+            super().__init__('http://c29.invalid')
+            self.H, self.tracks = H, tracks
+            self.asked = []
+
+        def count(self, name, level):
+            return _bisect.bisect_right(self.tracks.get(name) or [], level)
+
+        def get(self, path, params=None, timeout=None):
+            m = _PATH.fullmatch(path)
+            if not m:
+                raise NodeGap(path)
+            bid, tail = m.group(1), m.group(2)
+            if bid == 'head':
+                level = self.H
+            else:
+                try:
+                    level = int(bid)
+                except ValueError:
+                    raise NodeGap(path)
+                if not 0 <= level <= self.H:
+                    self.asked.append(level)
+                    raise RpcError(f'Not found: block {bid}')
+            if tail == 'header':
+                return {'level': level, 'hash': f'block{level}', 'predecessor': f'block{max(level - 1, 0)}'}
+            if tail == 'metadata':
+                pos = max(level - 1, 0)
+                return {'level_info': {'level': level, 'level_position': pos, 'cycle': pos // 128, 'cycle_position': pos % 128,
+                                       'expected_commitment': False},
+                        'voting_period_info': {'voting_period': {'index': pos // 512, 'kind': 'proposal', 'start_position': pos // 512 * 512},
+                                               'position': pos % 512, 'remaining': 511 - pos % 512}}
+            if tail == 'votes/proposals':
+                return [[TRACK_ID[p], self.count(p, level)] for p in ('p1', 'p2') if self.count(p, level)]
+            if tail == 'votes/ballots':
+                return {'yay': self.count('ballots', level), 'nay': 0, 'pass': 0}
+            for kt in ('kt1', 'kt2'):
+                if tail == f'context/contracts/{TRACK_ID[kt]}/counter':
+                    n = self.count(kt, level)
+                    if not n:
+                        raise RpcError(f'Not found: {path}')
+                    return str(n - 1)
+            if tail == 'operations/1':
+                return [{'hash': f'{level}:p1', 'contents': [{'kind': 'proposals', 'proposals': [P1]}]},
+                        {'hash': f'{level}:ballots', 'contents': [{'kind': 'ballot', 'proposal': P1, 'ballot': 'yay'}]},
+                        {'hash': f'{level}:p2', 'contents': [{'kind': 'proposals', 'proposals': [P2]}]}]
+            if tail == 'operations/3':
+                return [{'hash': f'{level}:none', 'contents': [{'kind': 'transaction', 'metadata': {'operation_result': {}}}]}] + [
+                    {'hash': f'{level}:{kt}', 'contents': [{'kind': 'origination', 'metadata': {
+                        'operation_result': {'originated_contracts': [TRACK_ID[kt]]}}}]} for kt in ('kt1', 'kt2')]
+            raise NodeGap(path)
+
+        def post(self, path, params=None, json=None):
+            raise NodeGap('POST ' + path)
+
+        def request(self, method, path, **kwargs):
+            raise NodeGap(f'{method} {path}')
+
+    return ChainNode
+
+
+_ChainNode = None
+
+
+def _marks(ops, tag):
+    """Levels of the marker operations in a helper's result ('?' for anything that is not one of them)."""
+    out = []
+    for op in ops if isinstance(ops, list) else [ops]:
+        h = op.get('hash') if isinstance(op, dict) else None
+        m = re.fullmatch(r'(\d+):(\w+)', h) if isinstance(h, str) else None
+        out.append(int(m.group(1)) if m and m.group(2) == tag else '?')
+    return out
+
+
+def drive_query(case):
+    with bounded_recursion(case['H']):
+        return _drive_query(case)
+
+
+def _drive_query(case):
+    """Real code: one node, one ShellQuery, one slice object, the searches of QUERY_CALLS one after the other.
+    -> [('ok', [levels]) | ('raised', type, text)] per call"""
+    global _ChainNode
+    from pytezos.rpc.shell import ShellQuery
+    if _ChainNode is None:
+        _ChainNode = _node_class()
+    tracks = {k: sorted(case.get(k) or []) for k in ('p1', 'p2', 'ballots', 'kt1', 'kt2')}
+    node = _ChainNode(case['H'], tracks)
+    obs = []
+    try:
+        q = ShellQuery(node=node).blocks[case['start']:case['stop']]
+    except BaseException as e:   # noqa
+        return [('raised', type(e).__name__, 'building the slice: ' + str(e)[:200])] * len(QUERY_CALLS)
+    for call in QUERY_CALLS:
+        try:
+            if call in ('p1', 'p2'):
+                o = ('ok', _marks(list(q.find_upvotes(TRACK_ID[call])), call))
+            elif call == 'ballots':
+                o = ('ok', _marks(list(q.find_ballots()), 'ballots'))
+            else:
+                o = ('ok', _marks(q.find_origination(TRACK_ID[call]), call))
+        except RecursionError:
+            o = ('raised', 'RecursionError', '')
+        except (Exception, StopIteration) as e:
+            o = ('raised', type(e).__name__, str(e)[:200])
+        obs.append(o)
+    return obs
+
+
+def judge_query(case, obs):
+    """-> [(helper, label, nv, nontrivial key or None, [(descriptor, detail)])] per call"""
+    H = case['H']
+    first, stop = ref.slice_range(case['start'], case['stop'], H)
+    sl = f'blocks[{case["start"]}:{"" if case["stop"] is None else case["stop"]}]'
+    out = []
+    for i, (call, o) in enumerate(zip(QUERY_CALLS, obs)):
+        cps = sorted(case.get(call) or [])
+        ctx = f'chain of {H} blocks, {sl}, search {i + 1} of {QUERY_CALLS} on one slice object, {call} changes at {cps}'
+        nv, vs = 0, []
+        if call in ('kt1', 'kt2'):
+            helper = 'find_origination'
+            hist = {lv: (None if lv < cps[0] else str(_bisect.bisect_right(cps, lv) - 1)) if cps else None for lv in range(0, H + 1)}
+            exp = ref.first_change(hist, 0, H)
+            key = (H, helper, tuple(cps)) if cps else None
+            if exp is None:
+                label, nv = 'contract never originated (no verdict)', 1
+            elif o[0] == 'raised':
+                label = f'raises {o[1]}'
+                vs.append((f'query layer: find_origination raises {o[1]}', f'{ctx}: {o[2]}'))
+            elif o[1] != [exp[0]]:
+                label = 'WRONG block'
+                vs.append(('query layer: find_origination does not settle on the first block in which the contract exists',
+                           f'{ctx}: settled on block {o[1]}, expected {exp[0]}'))
+            else:
+                label = 'origination block found'
+        else:
+            helper = 'find_ballots' if call == 'ballots' else 'find_upvotes'
+            last, head = first, stop - 1
+            hist = {lv: _bisect.bisect_right(cps, lv) for lv in range(last, head + 1)}
+            explv = [lv for lv, _ in ref.changes(hist, last, head)] if head > last else []
+            key = (H, case['start'], case['stop'], helper, tuple(cps)) if explv else None
+            if o[0] == 'raised':
+                label = f'raises {o[1]}'
+                vs.append((f'query layer: {helper} raises {o[1]}', f'{ctx}: {o[2]}'))
+            else:
+                levels = [lv for lv in o[1] if lv != stop]
+                if len(levels) != len(o[1]):
+                    nv = 1      # a report of the slice's last block is neither demanded nor forbidden here
+                problems, vs = judge_levels(f'query layer: {helper} ', ctx, levels, explv)
+                label = ('exact' if not problems else 'WRONG: ' + '+'.join(problems)) + (', no change in range' if not explv else '')
+        out.append((helper, label, nv, key, vs))
+    return out
+
+
+def check_query(case):
+    return judge_query(case, drive_query(case))
+
+
+# ------------------------------------------------------------------ enumeration
+SPOT_EXTRA = (127, 128, 129, 255, 256, 257)
+
+
+def grid(tier):
+    """-> list of shard specs; spec[0] is the lane, spec[1] the size (sort key: simplest first)
+    pure:  ('pure', L, last, maxchanges, kinds, steps-or-'spot', part, nparts)
+    seq:   ('seq', L, last, maxchanges, part, nparts) | ('seqspot', L, last)
+    query: ('query', H, maxchanges-or-'spot', part, nparts)"""
+    out = []
+    q = tier == 'quick'
+    # PURE
+    for L in range(0, 15 if q else 41):
+        for last in (0, 5):
+            n = 1 if q else (8 if L > 30 else (4 if L > 16 else 1))
+            for part in range(n):
+                if q:
+                    out.append(('pure', L, last, 3, KINDS if L <= 8 else ['int', 'falsy'], None, part, n))
+                else:
+                    out.append(('pure', L, last, 4 if L <= 24 else 3, KINDS if L <= 10 else ['int', 'falsy'], None, part, n))
+    for L, maxc, n in ([(120, 1, 4), (150, 2, 8), (300, 1, 8), (520, 1, 8)] if q else
+                       [(100, 2, 16), (120, 2, 16), (180, 2, 16), (300, 2, 32), (520, 2, 64), (1000, 1, 16)]):
+        for part in range(n):
+            out.append(('pure', L, 5, maxc, ['int'], 'spot', part, n))
+    # SEQ
+    for L in range(1, 7 if q else 10):
+        for last in (0, 5):
+            n = 1 if L <= 6 else 8
+            for part in range(n):
+                out.append(('seq', L, last, 2 if (q or L > 7) else 3, part, n))
+    for L in ((120, 300) if q else (120, 300, 520)):
+        out.append(('seqspot', L, 5))
+    # QUERY
+    for H in range(1, 9 if q else 12):
+        n = 1 if H <= 6 else 4
+        for part in range(n):
+            out.append(('query', H, 2 if (q or H > 8) else 3, part, n))
+    for H in ((61, 130, 300) if q else (61, 100, 130, 300, 520)):
+        n = 8 if q else 16
+        for part in range(n):
+            out.append(('query', H, 'spot', part, n))
     return out
 
 
 def shards(tier, seed):
     g = grid(tier)
     # simplest first, so that the first recorded counterexample of a descriptor is a short one
-    return sorted(g, key=lambda s: (s[0], s[1], s[5]))
+    order = {'pure': 0, 'seq': 1, 'seqspot': 1, 'query': 2}
+    return sorted(g, key=lambda s: (s[1], order[s[0]], repr(s[2:])))
 
 
 def steps_for(L, steps):
     if steps == 'spot':
-        return sorted({s for s in (1, 7, 59, 60, 61, L - 1, L, L + 1) if s >= 1})
+        return sorted({s for s in (1, 7, 59, 60, 61, L // 2, L // 2 + 1, L - 1, L, L + 1) + SPOT_EXTRA if 1 <= s <= L + 1})
     return list(range(1, L + 2))
 
 
-def run_shard(spec, tier):
-    L, last, maxc, kinds, steps, part, nparts = spec
-    r = Result()
+def run_pure(spec, r):
+    _, L, last, maxc, kinds, steps, part, nparts = spec
     case = None
     i = 0
     for n in range(0, maxc + 1):
@@ -261,7 +562,7 @@ def run_shard(spec, tier):
                     r.ev()
                     lm, ls, nv, vs = check(case)
                     r.out(f'search {kind}, {n} change(s), {rel}: {lm}')
-                    r.out(f'single {kind}, {"empty" if L == 0 else "short" if L == 1 else "long"} range: {ls}')
+                    r.out(f'single {kind}, {"empty" if L == 0 else "short" if L == 1 else "long" if L <= 128 else "very long"} range: {ls}')
                     r.no_verdict += nv
                     for d, detail in vs:
                         r.viol(d, case, detail)
@@ -269,12 +570,130 @@ def run_shard(spec, tier):
                         r.sample(case)
     if case:
         r.sample(case)
+
+
+SEQ_KINDS = [('int', 'int'), ('int', 'str'), ('falsy', 'countdown')]
+
+
+def run_seq_case(case, r):
+    a, b = case['calls'][0], case['calls'][1]
+    if a['changes'] != b['changes'] and (a['changes'] or b['changes']):
+        r.nt(('seq', case['L'], case['last'], case['step'], tuple(a['changes']), tuple(b['changes'])))
+    r.ev()
+    for i, (lm, ls, nv, vs) in enumerate(check_seq(case)):
+        same = 'same values' if a.get('kind') == b.get('kind') else 'other values'
+        what = ('first search' if i == 0 else 'other history, ' + same if i == 1 else 'first history again')
+        r.out(f'seq {what}: search {lm}')
+        r.out(f'seq {what}: single {ls.split(":")[0]}')
+        r.no_verdict += nv
+        for d, detail in vs:
+            r.viol(d, case, detail)
+
+
+def run_seq(spec, r):
+    case = None
+    if spec[0] == 'seqspot':
+        _, L, last = spec
+        for c in range(1, L + 1):
+            for c2 in sorted({min(c + 1, L), L + 1 - c, max(c - 60, 1)} - {c}):
+                for step in (1, 60, L + 1):
+                    case = {'lane': 'seq', 'L': L, 'last': last, 'step': step,
+                            'calls': [{'changes': [c], 'kind': 'int'}, {'changes': [c2], 'kind': 'int'}, {'changes': [c], 'kind': 'int'}]}
+                    run_seq_case(case, r)
+    else:
+        _, L, last, maxc, part, nparts = spec
+        hs = [list(c) for n in range(0, maxc + 1) for c in itertools.combinations(range(1, L + 1), n)]
+        i = 0
+        for A in hs:
+            for B in hs:
+                i += 1
+                if i % nparts != part:
+                    continue
+                for step in sorted({1, 2, 3, L, L + 1} & set(range(1, L + 2))):
+                    for ka, kb in SEQ_KINDS:
+                        case = {'lane': 'seq', 'L': L, 'last': last, 'step': step,
+                                'calls': [{'changes': A, 'kind': ka}, {'changes': B, 'kind': kb}, {'changes': A, 'kind': ka}]}
+                        run_seq_case(case, r)
+                        if len(r.samples) < 1 and len(A) == 1 and len(B) == 2:
+                            r.sample(case)
+    if case:
+        r.sample(case)
+
+
+def query_slices(H, spot, full):
+    """(start, stop) pairs denoting a non-inverted range; negative start = offset from the head."""
+    s = [(1, None), (-(H // 2 + 1), None), (2, H - 1)]
+    if not spot or full:
+        s += [(-1, None), (-2, None), (-(H + 3), None), (3, None)]
+    out = []
+    for a, b in s:
+        first, stop = ref.slice_range(a, b, H)
+        if first <= stop and (b is None or 1 <= b <= H) and (a, b) not in out:
+            out.append((a, b))
+    return out
+
+
+def run_query(spec, r, tier):
+    _, H, maxc, part, nparts = spec
+    spot = maxc == 'spot'
+    if spot:
+        singles = [[c] for c in range(1, H + 1)]
+        dist = (1, 60) if tier == 'quick' else (1, 2, 59, 60, 61)
+        pairs = [[c, c + d] for c in range(1, H + 1) for d in dist if c + d <= H]
+        plans = [(singles, query_slices(H, True, tier != 'quick')), (pairs, query_slices(H, True, False)[:1 if tier == 'quick' else 3])]
+    else:
+        hs = [list(c) for n in range(0, maxc + 1) for c in itertools.combinations(range(1, H + 1), n)]
+        plans = [(hs, query_slices(H, False, True))]
+    case = None
+    i = 0
+    for hs, slices in plans:
+        for (a, b) in slices:
+            for j, A in enumerate(hs):
+                i += 1
+                if i % nparts != part:
+                    continue
+                B, C = hs[(j + 1) % len(hs)], hs[(j + 2) % len(hs)]
+                case = {'lane': 'query', 'H': H, 'start': a, 'stop': b, 'p1': A, 'p2': B, 'ballots': C, 'kt1': A, 'kt2': B}
+                r.ev()
+                for k, (helper, label, nv, key, vs) in enumerate(check_query(case)):
+                    if key:
+                        r.nt(('query',) + key)
+                    r.out(f'query {helper} ({"first" if k == 0 else "later"} search on the slice, start {"<0" if a < 0 else ">0"}, '
+                          f'{"short" if H <= 60 else "long"} chain): {label}')
+                    r.no_verdict += nv
+                    for d, detail in vs:
+                        r.viol(d, case, detail)
+                if len(r.samples) < 1 and len(A) == 2:
+                    r.sample(case)
+    if case:
+        r.sample(case)
+
+
+def run_shard(spec, tier):
+    r = Result()
+    if spec[0] == 'pure':
+        run_pure(spec, r)
+    elif spec[0] in ('seq', 'seqspot'):
+        run_seq(spec, r)
+    else:
+        run_query(spec, r, tier)
     return r
 
 
 def replay(case):
+    lane = case.get('lane', 'pure')
+    if lane == 'seq':
+        return [v for _, _, _, vs in check_seq(case) for v in vs]
+    if lane == 'query':
+        return [v for _, _, _, _, vs in check_query(case) for v in vs]
     return check(case)[3]
 
 
 def observe(case):
-    return drive(case)
+    """What the searches answer (not how many probes they needed: an implementation is free to probe less)."""
+    lane = case.get('lane', 'pure')
+    if lane == 'seq':
+        return [{k: v for k, v in drive(sub).items() if k in ('multi', 'single')} for sub in seq_subcases(case)]
+    if lane == 'query':
+        return drive_query(case)
+    return {k: v for k, v in drive(case).items() if k in ('multi', 'single')}
